@@ -18,8 +18,12 @@ ADD_NODES = 'table::RoutingTable::add_nodes'
 def cond_edges(body, paths, pred):
     """CFG edges (switch block -> target) of the path conditions whose literal satisfies pred"""
     edges = set()
+    seen = set()
     for p in paths:
         for c in p.conds:
+            if id(c) in seen:      # condition tuples are shared between the paths that run through them
+                continue
+            seen.add(id(c))
             if c[2] is None or c[2] < 0:
                 continue
             lit = literal(c)
